@@ -160,7 +160,7 @@ macro_rules! any_prefix {
 				(Err(_), None) => {},
 			}
 			kani::cover!(r.is_ok(), "reach: accepted");
-			kani::cover!(r.is_err() && m.is_some(), "reach: count promises too much");
+			kani::cover!(r.is_err() && m.is_some(), "info: count promises too much");
 			core::mem::forget(r);
 		}
 	};
